@@ -214,7 +214,7 @@ PickMutation == /\ stage = "writer" /\ Mode = "bad"
                 /\ stage' = "form" /\ UNCHANGED q
 PickForm == /\ stage = "form" /\ Mode = "grid"
             /\ LET h == Hash(x, form) \div K IN
-               \E j \in 0..(IF x.ok = 2 THEN 0 ELSE FormsPer) :      \* named zone: the literal alone (its instant is not specified)
+               \E j \in 0..FormsPer :
                  q' = MakeQuery(IF j = 0 THEN "lit" ELSE Forms[((h + j - 1) % Len(Forms)) + 1], lit, h + j)
             /\ stage' = "done" /\ UNCHANGED <<x, lit, form>>
 BadForm == /\ stage = "form" /\ Mode = "bad"
